@@ -41,8 +41,7 @@ NAMED_PROPS[("BasicBlock", "sub_return_point")] = T.Opt(BB)
 NAMED_PROPS[("BasicBlock", "called_subroutine")] = SUB
 NAMED_PROPS[("Subroutine", "retsub_blocks")] = T.List(BB)
 
-for _p, _ty, _req in (("is_sub_return_point", T.Bool, None),
-                      ("callsub_block", BB, "is_sub_return_point"), ("sub_return_point", T.Opt(BB), "is_callsub_block"),
+for _p, _ty, _req in (("sub_return_point", T.Opt(BB), "is_callsub_block"),
                       ("called_subroutine", SUB, "is_callsub_block")):
     c = contract(B_ + _p, params={"self": BB}, returns=_ty, trusted=True, trusted_reason=NAMING, tags=["C04", "C05"],
                  raises=[("TealerException", (lambda r: lambda self: Not(getattr(self, r)))(_req))] if _req else [])
@@ -55,8 +54,9 @@ def _bb_invariant(ex, st, ref):
     K = ex.ct.cls("BasicBlock")
     ins, _ = ex.read_field(ref, K, "_instructions", st)
     sub, _ = ex.read_field(ref, K, "_subroutine", st)
-    # ... and every block belongs to a unit (main or a subroutine): `_subroutine` is set (C05)
-    return [ex.list_len(ins, st).term >= 1, z3.Not(sub.is_none().term)]
+    teal, _ = ex.read_field(ref, K, "_teal", st)
+    # ... and every block belongs to a unit (main or a subroutine) of a contract: `_subroutine` and `_teal` are set (C05)
+    return [ex.list_len(ins, st).term >= 1, z3.Not(sub.is_none().term), z3.Not(teal.is_none().term)]
 
 
 from pyvc.execbase import ON_TOUCH   # noqa: E402
@@ -70,6 +70,24 @@ def exit_ins(block):
     ins, _ = ctx.ex.read_field(block, K, "_instructions", ctx.st)
     n = ctx.ex.list_len(ins, ctx.st).term
     return ctx.ex.list_get(ins, n - 1, ctx.st)
+
+
+# return points: verified against the predecessor list, and named
+def _some_prev_is_call(self, upto=None):
+    return ExistsIdx(self._prev, lambda j, p: p.is_callsub_block, upto=upto)
+
+
+c = contract(B_ + "is_sub_return_point", params={"self": BB}, returns=T.Bool, tags=["C04", "C05"], touch=["self"])
+ensures(c, "after_a_call", lambda self, result: Iff(result, _some_prev_is_call(self)),
+        note="a return point is a block one of whose predecessors is a call site")
+ensures(c, "name", lambda self, result: Eq(result, self.is_sub_return_point), naming=True)
+invariant(c, 1, "bi", lambda it, i, self: And(i <= Len(it), Not(_some_prev_is_call(self, upto=i))), label="none_so_far")
+c = contract(B_ + "callsub_block", params={"self": BB}, returns=BB, tags=["C04", "C05"], touch=["self"],
+             raises=[("TealerException", lambda self: Not(_some_prev_is_call(self)))])
+ensures(c, "is_call_site", lambda self, result: And(result.is_callsub_block, ExistsIdx(self._prev, lambda j, p: Eq(p, result))),
+        note="the call site this block returns to: one of its predecessors, ending in callsub")
+ensures(c, "name", lambda self, result: Eq(result, self.callsub_block), naming=True)
+invariant(c, 1, "bi", lambda it, i, self: And(i <= Len(it), Not(_some_prev_is_call(self, upto=i))), label="none_so_far")
 
 
 # the two exit-instruction observations: verified against the instruction list, and named
@@ -138,9 +156,31 @@ ensures(c, "return", lambda function, block, result: Implies(block.is_retsub_blo
     result, RPB_LEN, RPB_AT, function, block.subroutine)),
     note="a retsub block: the successors are the return points of the call sites of its subroutine")
 ensures(c, "name", lambda function, block, result: _seq_is(result, NBG_LEN, NBG_AT, function, block), naming=True)
-c = contract(U + "prev_blocks_global", params={"function": FN, "block": BB}, returns=T.List(BB), trusted=True,
-             trusted_reason=NAMING, tags=["C04", "C05"])
+CB_LEN = z3.Function("CB_LEN", z3.IntSort(), z3.IntSort(), z3.IntSort())
+CB_AT = z3.Function("CB_AT", z3.IntSort(), z3.IntSort(), z3.IntSort(), z3.IntSort())
+c = contract("tealer/teal/functions.py::Function.caller_blocks", params={"self": FN, "subroutine": SUB}, returns=T.List(BB),
+             trusted=True, trusted_reason=NAMING, tags=["C05"])
+ensures(c, "name", lambda self, subroutine, result: _seq_is(result, CB_LEN, CB_AT, self, subroutine), naming=True)
+
+c = contract(U + "prev_blocks_global", params={"function": FN, "block": BB}, returns=T.List(BB), tags=["C04", "C05"], touch=["block"])
+c.seq_filter = True
+# invariant of Function (its constructor builds the caller table for every subroutine of the function; C05, bounded cfgcheck):
+# assumed for the verification of this function, not demanded from its callers
+assumes(c, "callers_known", lambda function, block: Implies(
+    And(Eq(block, block.subroutine._entry), Not(Eq(block.subroutine, function.main))),
+    lambda: In(block.subroutine, function._subroutine_caller_blocks)))
+ensures(c, "plain", lambda block, result: Implies(And(Not(Eq(block, block.subroutine._entry)), Not(block.is_sub_return_point)),
+                                                  lambda: _same_list(result, block._prev)),
+        note="neither the entry of its unit nor a return point: the predecessors in the global graph are the block's own")
+ensures(c, "main_entry", lambda function, block, result: Implies(
+    And(Eq(block, block.subroutine._entry), Eq(block.subroutine, function.main)), lambda: _same_list(result, block._prev)),
+    note="the entry of the main unit has no call sites: its own predecessors")
+ensures(c, "sub_entry", lambda function, block, result: Implies(
+    And(Eq(block, block.subroutine._entry), Not(Eq(block.subroutine, function.main))),
+    lambda: Eq(Len(result), VInt(CB_LEN(function.term, block.subroutine.term)) + Len(block._prev))),
+    note="the entry of a subroutine: its call sites in this function, then its own predecessors")
 ensures(c, "name", lambda function, block, result: _seq_is(result, PBG_LEN, PBG_AT, function, block), naming=True)
+
 c = contract(U + "leaf_block_global", params={"block": BB}, returns=T.Bool, tags=["C04", "C05"], touch=["block"])
 ensures(c, "leaf", lambda block, result: Iff(result, And(Len(block._next) == 0, Not(block.is_retsub_block), Not(block.is_callsub_block))),
         note="a leaf of the global graph: no successor, and neither a retsub block (continues at the return points) nor a call site")
